@@ -52,6 +52,7 @@ def layer_region_rule(M, rep, R1):
             continue
         atoms = set()
         whole = False
+        altered = None
         for p in explore(rcfg0, f, "H5DataSet", None, 4000):
             for a, v in p.decisions:
                 if a[0] in ("isnone", "truthy") and a[1] == ("param", "slc"):
@@ -61,6 +62,13 @@ def layer_region_rule(M, rep, R1):
                         e.key.t in (("slice", ("const", None), ("const", None), ("const", None)),
                                     ("call", "slice", (("const", None), ("const", None), ("const", None))), ("builtin", "Ellipsis")):
                     whole = True
+                elif e.kind == "raw" and e.op.split(".")[0] == "ds" and e.op.split(".")[-1] in ("__getitem__", "__setitem__") and \
+                        e.key is not None and e.key.t != ("param", "slc") and "slc" in params_of(e.key.t):
+                    altered = show(e.key.t)[:100]
+        if altered:
+            rep.bad(R1, key + "/region", "%s hands HDF5 another region (%s) than the one it was given: the elements transferred are not "
+                    "the elements addressed unless the rewriting is exact for every index form (ellipsis, integers, steps)" % (key, altered),
+                    site=f.file + ":%d" % f.node.lineno)
         rep.check(R1, key, atoms == {"isnone"} and whole, "%s decides whether a region was given by %s: the index 0 addresses the whole "
                   "data set" % (key, "truthiness" if "truthy" in atoms else "something else than `slc is None`"),
                   site=f.file + ":%d" % f.node.lineno, what="tests `slc is None`, else passes the region on")
